@@ -78,10 +78,203 @@ SPLIT = Contract(
 
 TASKS = [FunctionTask(SPLIT, module_env={"TimeSeries": TS_CTOR}, clauses=["k whole sample intervals; windows tile the record sharing boundary samples"])]
 
+# ---------------------------------------------------------------------------------------------------------------------
+# SeismicRecording3C.split: the three components are split with the same window length and recombined index by index.  TimeSeries.split is
+# used through an abstraction of its contract above: the windows of a series are objects WIN(series, j), j < NWIN(series).
+from pyvc.core import FuncV, DictV
+from pyvc.objects import new_symlist
+
+NWIN = z3.Function("NWIN", I, R, I)            # number of windows TimeSeries.split(L) returns for a series
+WINID = z3.Function("WINID", I, R, I, I)       # the j-th of them
+NEW3C = z3.Function("NEW3C", I, I, I, I)       # the recording built from three windows
+DEG = z3.Real("degrees_from_north")
+NS_ID, EW_ID, VT_ID = z3.Ints("ns_id ew_id vt_id")
+
+
+def _m_ts_split(ex, st, args, kw, node):
+    ts, L_ = args[0], args[1]
+    j = z3.Int("j!w")
+    ids = z3.Lambda([j], WINID(ts.id, L_, j))
+    st.pc.append(NWIN(ts.id, L_) >= 0)
+    return new_symlist(ex, st, "TimeSeries", length=NWIN(ts.id, L_), arr=ids, owner="fresh", name="windows")
+
+
+def _m_3c_ctor(ex, st, args, kw, node):
+    ns, ew, vt = args[0], args[1], args[2]
+    oid = NEW3C(ns.id, ew.id, vt.id)
+    st.pc += [fld("SeismicRecording3C", "ns", I)(oid) == ns.id, fld("SeismicRecording3C", "ew", I)(oid) == ew.id, fld("SeismicRecording3C", "vt", I)(oid) == vt.id,
+              fld("SeismicRecording3C", "degrees_from_north", R)(oid) == kw["degrees_from_north"]]
+    return SObj("SeismicRecording3C", oid, owner="fresh")
+
+
+def _split3_inputs(ex, st):
+    st.env["self"] = sym_obj(ex, st, "SeismicRecording3C", {"ns": SObj("TimeSeries", NS_ID, "param:self.ns"), "ew": SObj("TimeSeries", EW_ID, "param:self.ew"),
+                                                            "vt": SObj("TimeSeries", VT_ID, "param:self.vt"), "degrees_from_north": DEG, "meta": DictV({})}, owner="param:self")
+    st.env["window_length_in_seconds"] = Lw
+    return []
+
+
+def _zmin3(a, b, c):
+    m = z3.If(a <= b, a, b)
+    return z3.If(m <= c, m, c)
+
+
+SPLIT3 = Contract(
+    qual="hvsrpy.seismic_recording_3c.SeismicRecording3C.split", params=["self", "window_length_in_seconds"],
+    ghost={"NW": lambda: _zmin3(NWIN(NS_ID, Lw), NWIN(EW_ID, Lw), NWIN(VT_ID, Lw)), "WIN": lambda c, j: WINID(c, Lw, j),
+           "NS_ID": NS_ID, "EW_ID": EW_ID, "VT_ID": VT_ID, "same_obj": FuncV(lambda ex, st, a, k, n_: a[0].id == a[1], "same_obj")},
+    make_inputs=_split3_inputs, sym_lists={"split_recordings": "SeismicRecording3C"}, modifies=["param:self"],
+    ensures=["len(result) == NW()",
+             "forall(j, 0, len(result), same_obj(result[j].ns, WIN(NS_ID, j)) and same_obj(result[j].ew, WIN(EW_ID, j)) and same_obj(result[j].vt, WIN(VT_ID, j)))",
+             "forall(j, 0, len(result), result[j].degrees_from_north == self.degrees_from_north)"],
+    loops={0: ["len(split_recordings) == _k0",
+               "forall(j, 0, _k0, same_obj(split_recordings[j].ns, WIN(NS_ID, j)) and same_obj(split_recordings[j].ew, WIN(EW_ID, j)) and same_obj(split_recordings[j].vt, WIN(VT_ID, j)))",
+               "forall(j, 0, _k0, split_recordings[j].degrees_from_north == self.degrees_from_north)"]},
+    notes="window j of the recording = (window j of ns, window j of ew, window j of vt) of the same split, orientation carried over")
+TASKS.append(FunctionTask(SPLIT3, registry={"TimeSeries.split": FuncV(_m_ts_split, "TimeSeries.split")}, module_env={"SeismicRecording3C": FuncV(_m_3c_ctor, "SeismicRecording3C")},
+                          clauses=["three components split identically and recombined index by index"]))
+
+# ---------------------------------------------------------------------------------------------------------------------
+# hvsr_preprocess: order of the steps.  The content of a recording (its three series and orientation) is one abstract value per object id, kept
+# in a ghost map C that the method models update: orient_sensor_to -> ORIENT, butterworth_filter -> BUTTER, split -> windows W3(rec, j) with
+# content WINDOWC(content, L, j), detrend -> DETREND.  The result's windows then carry DETREND(WINDOWC(BUTTER(ORIENT(c0)))) - any other order
+# of the calls gives a different term.
+from pyvc.core import StrV, NONE
+
+LREC = z3.Int("n_records")
+RIDS = z3.Const("record_ids", z3.ArraySort(I, I))
+C0 = z3.Const("content_on_entry", z3.ArraySort(I, I))
+ORIENT = z3.Function("ORIENT", I, R, I)
+BUTTER = z3.Function("BUTTER", I, R, R, I)
+WINDOWC = z3.Function("WINDOWC", I, R, I, I)
+DETREND = z3.Function("DETREND", I, I)             # the detrend mode is fixed per task
+NW3 = z3.Function("NW3", I, R, I)                  # number of windows split(L) yields for a content
+W3 = z3.Function("W3", I, I, I)                    # id of window j of recording r
+WREC, WPOS = z3.Function("WREC", I, I), z3.Function("WPOS", I, I)
+ISWIN = z3.Function("ISWIN", I, B)
+NOFF = z3.Function("NOFF", I, I)                   # number of windows produced by the recordings before recording k
+DEG0, FLO, FHI, LWIN = z3.Reals("orient_to f_low f_high window_length")
+
+
+def PC(i, oriented):
+    c = z3.Select(C0, z3.Select(RIDS, i))
+    return BUTTER(ORIENT(c, DEG0) if oriented else c, FLO, FHI)
+
+
+def _pre_axioms(oriented):
+    r, j, i, k = z3.Ints("r!w j!w i!w k!w")
+    nw = lambda q: NW3(PC(q, oriented), LWIN)
+    return [
+        z3.ForAll([r, j], z3.And(WREC(W3(r, j)) == r, WPOS(W3(r, j)) == j, ISWIN(W3(r, j))), patterns=[W3(r, j)]),
+        z3.ForAll([i], z3.Not(ISWIN(z3.Select(RIDS, i))), patterns=[z3.Select(RIDS, i)]),
+        z3.ForAll([r, LWIN_ := z3.Real("l!w")], NW3(r, LWIN_) >= 0, patterns=[NW3(r, LWIN_)]),
+        NOFF(0) == 0,
+        z3.ForAll([k], z3.Implies(k >= 0, NOFF(k + 1) == NOFF(k) + nw(k)), patterns=[NOFF(k + 1)]),
+        # derived (base/step lemmas below): the windows of recording i end before those of every later recording start
+        z3.ForAll([i, k], z3.Implies(z3.And(0 <= i, i < k), NOFF(i) + nw(i) <= NOFF(k)), patterns=[z3.MultiPattern(NOFF(i), NOFF(k))]),
+        z3.ForAll([i, k], z3.Implies(z3.And(0 <= i, i <= k), NOFF(i) <= NOFF(k)), patterns=[z3.MultiPattern(NOFF(i), NOFF(k))]),
+    ]
+
+
+def _c(st):
+    return st.env["__C"]
+
+
+def _upd(st, oid, val):
+    st.env["__C"] = z3.Store(st.env["__C"], oid, val)
+
+
+def _m_orient(ex, st, args, kw, node):
+    _upd(st, args[0].id, ORIENT(z3.Select(_c(st), args[0].id), real_(args[1])))
+    return NONE
+
+
+def _m_butter(ex, st, args, kw, node):
+    lo, hi = args[1]
+    _upd(st, args[0].id, BUTTER(z3.Select(_c(st), args[0].id), real_(lo), real_(hi)))
+    return NONE
+
+
+def _m_split3(ex, st, args, kw, node):
+    rec, L_ = args[0], real_(args[1])
+    c = z3.Select(_c(st), rec.id)
+    j, w = z3.Int("j!sp"), z3.Int("w!sp")
+    st.env["__C"] = z3.Lambda([w], z3.If(z3.And(WREC(w) == rec.id, WPOS(w) >= 0, WPOS(w) < NW3(c, L_), w == W3(rec.id, WPOS(w))),
+                                         WINDOWC(c, L_, WPOS(w)), z3.Select(_c(st), w)))
+    return new_symlist(ex, st, "SeismicRecording3C", length=NW3(c, L_), arr=z3.Lambda([j], W3(rec.id, j)), owner="fresh", name="windows")
+
+
+def _m_detrend(ex, st, args, kw, node):
+    _upd(st, args[0].id, DETREND(z3.Select(_c(st), args[0].id)))
+    return NONE
+
+
+from pyvc.core import real as real_
+
+
+def _pre_inputs(oriented):
+    def mk(ex, st):
+        st.env["records"] = new_symlist(ex, st, "SeismicRecording3C", length=LREC, arr=RIDS, owner="param:records", name="records")
+        st.env["settings"] = sym_obj(ex, st, "Settings", {
+            "orient_to_degrees_from_north": DEG0 if oriented else NONE, "filter_corner_frequencies_in_hz": Tup((FLO, FHI)),
+            "window_length_in_seconds": LWIN, "detrend": StrV("linear"), "ignore_dissimilar_time_step_warning": z3.Bool("ignore_warning")}, owner="param:settings")
+        st.env["__C"] = C0
+        st.env["LREC"] = LREC
+        a, b = z3.Ints("a!in b!in")
+        return [LREC >= 1, z3.ForAll([a, b], z3.Implies(z3.And(0 <= a, a < b, b < LREC), z3.Select(RIDS, a) != z3.Select(RIDS, b)))]     # distinct recording objects
+    return mk
+
+
+def _pre_contract(oriented):
+    gh = {"C": FuncV(lambda ex, st, a, k, n_: z3.Select(st.env["__C"], a[0] if z3.is_expr(a[0]) else a[0].id), "C"), "C0": lambda r: z3.Select(C0, r),
+          "RID": lambda i: z3.Select(RIDS, i), "W3": W3, "NOFF": NOFF, "NW": lambda i: NW3(PC(i, oriented), LWIN), "PC": lambda i: PC(i, oriented),
+          "FINAL": lambda i, j: DETREND(WINDOWC(PC(i, oriented), LWIN, j)), "WINDOWC": lambda c, j: WINDOWC(c, LWIN, j), "DETREND": DETREND,
+          "same_obj": FuncV(lambda ex, st, a, k, n_: a[0].id == a[1], "same_obj")}
+    done = "forall(i, 0, {k}, forall(j, 0, NW(i), same_obj(preprocessed_records[NOFF(i) + j], W3(RID(i), j)) and C(W3(RID(i), j)) == FINAL(i, j)))"
+    return Contract(
+        qual="hvsrpy.preprocessing.hvsr_preprocess", params=["records", "settings"], ghost=gh, axioms=_pre_axioms(oriented),
+        make_inputs=_pre_inputs(oriented), sym_lists={"preprocessed_records": "SeismicRecording3C"},
+        ensures=["len(result) == NOFF(LREC)",
+                 "forall(i, 0, LREC, forall(j, 0, NW(i), same_obj(result[NOFF(i) + j], W3(RID(i), j)) and C(W3(RID(i), j)) == FINAL(i, j)))"],
+        loops={0: ["len(preprocessed_records) == NOFF(_k0)", done.format(k="_k0"), "forall(i, _k0, LREC, C(RID(i)) == C0(RID(i)))"],
+               1: ["len(preprocessed_records) == NOFF(_k0)", done.format(k="_k0"), "forall(i, _k0 + 1, LREC, C(RID(i)) == C0(RID(i)))",
+                   "forall(j, 0, _k1, C(W3(RID(_k0), j)) == DETREND(WINDOWC(PC(_k0), j)))",
+                   "forall(j, _k1, NW(_k0), C(W3(RID(_k0), j)) == WINDOWC(PC(_k0), j))"]},
+        modifies=["param:records"], notes="every recording: (orient,) filter the whole record, split, detrend each window; windows of all recordings in order")
+
+
+for oriented in (True, False):
+    c = _pre_contract(oriented)
+    c.ghost_state = ("__C",)
+    TASKS.append(FunctionTask(c, registry={"SeismicRecording3C.orient_sensor_to": FuncV(_m_orient, "orient_sensor_to"),
+                                           "SeismicRecording3C.butterworth_filter": FuncV(_m_butter, "butterworth_filter"),
+                                           "SeismicRecording3C.split": FuncV(_m_split3, "split"), "SeismicRecording3C.detrend": FuncV(_m_detrend, "detrend")},
+                              module_env={"SeismicRecording3C": __import__("pyvc.core", fromlist=["ClsV"]).ClsV("SeismicRecording3C")},
+                              label=f"hvsrpy.preprocessing.hvsr_preprocess[orient={'yes' if oriented else 'None'},split,detrend]",
+                              clauses=["orient -> filter -> split -> detrend each window; windows in order"]))
+
+# base / step of the derived NOFF clauses (A-INDUCTION)
+from pyvc.contract import LemmaTask
+_ax = _pre_axioms(True)
+_i, _k = z3.Ints("i!n k!n")
+_nw = lambda q: NW3(PC(q, True), LWIN)
+TASKS += [
+    LemmaTask("noff-monotone[step]", _ax[:5] + [_i >= 0, _i <= _k, NOFF(_i) <= NOFF(_k)], NOFF(_i) <= NOFF(_k + 1), "window counts are non-negative"),
+    LemmaTask("noff-strict[base]", _ax[:5] + [_i >= 0], NOFF(_i) + _nw(_i) <= NOFF(_i + 1), "the windows of recording i end where those of i+1 start"),
+    LemmaTask("noff-strict[step]", _ax[:5] + [_i >= 0, _i < _k, NOFF(_i) + _nw(_i) <= NOFF(_k)], NOFF(_i) + _nw(_i) <= NOFF(_k + 1), "and before every later start"),
+]
+
 META = dict(
     level="other",
-    explanation="proved: TimeSeries.split (interval count under the float model, tiling, shared boundary sample, error case, frame); bounded: "
-                "order of the preprocessing steps (orient, filter whole record, split, detrend per window) and component-wise split of recordings",
+    explanation="proved: TimeSeries.split (interval count under the float model, tiling, shared boundary sample, error case, frame); "
+                "SeismicRecording3C.split (window j = windows j of the three components of the same split); hvsr_preprocess for every number of "
+                "recordings and windows: each result window carries DETREND(WINDOW_j(BUTTER(ORIENT(content)))) of its recording - the order of the "
+                "steps - and the windows of all recordings follow in order (ghost content map updated by the method models; steps themselves opaque); "
+                "bounded: the same order against scipy numerically, component-wise split, psd_preprocess",
     trusted_base=["A-REAL except / and + in TimeSeries.split which use the relative-error float model", "A-PY", "A-NP-ALLOC", "PyVC engine + z3/cvc5"],
-    assumptions=["A-REAL", "A-FLOAT-MODEL(split)", "A-PY", "A-NP-ALLOC"],
+    assumptions=["A-REAL", "A-FLOAT-MODEL(split)", "A-PY", "A-NP-ALLOC",
+                 "hvsr_preprocess proof: the recording methods are state transformers of one abstract content per object (orient_sensor_to, butterworth_filter, "
+                 "split, detrend: their own effect is C04 / bounded C10), recordings in the list are distinct objects, split's error path is split's contract",
+                 "configurations proved: orientation set / None with window length and detrend mode set (window_length None and detrend None/'none' are the "
+                 "bounded clauses only)"],
 )
